@@ -1524,7 +1524,12 @@ def c16_one(res, g, rng, games):
             back = [[(m - d, s) for (m, s) in t] for t in out]
             rel = 4 * rel_budget(g) + 1e-9
             mm = teams_close(g, back, base, rel)
-            if mm:
+            if mm and tm_zero_gap_explains(g, back, base, rel):
+                # known finding K1 (see C04), verified: a Thurstone-Mosteller tie between teams whose total mu are equal; the shift re-rounds the
+                # two sums, x moves from 0.0 to +-1 ulp and vt's asymptote jumps by 2t
+                res.fail("property", "C16 [tm-tie-zero-gap]: Thurstone-Mosteller tie between teams of equal total mu: adding %r to every mu re-rounds the team sums, "
+                         "vt's asymptote jumps by 2t at x = 0 and the draw-margin term flips: %s" % (d, mm), dict(type="c16", game=g, shift=d))
+            elif mm:
                 res.fail("property", "C16: adding %r to every mu is not a pure shift of the posterior: %s" % (d, mm), dict(type="c16", game=g, shift=d))
             mm = preds_close(pbase, predict_all(g2))
             if mm:
@@ -1537,6 +1542,17 @@ def c16_item(res, item):
     res.case(g)
     games = []
     c16_one(res, g, rng, games)
+    if item.get("shift") is not None and len(set(len(t) for t in g["teams"])) == 1:
+        d = item["shift"]
+        base = impl_teams(g)
+        back = [[(m - d, s_) for (m, s_) in t] for t in impl_teams(shift_game(g, d))]
+        rel = 4 * rel_budget(g) + 1e-9
+        mm = teams_close(g, back, base, rel)
+        if mm and tm_zero_gap_explains(g, back, base, rel):
+            res.fail("property", "C16 [tm-tie-zero-gap]: Thurstone-Mosteller tie between teams of equal total mu: adding %r to every mu re-rounds the team sums, "
+                     "vt's asymptote jumps by 2t at x = 0 and the draw-margin term flips: %s" % (d, mm), dict(type="c16", game=g, shift=d))
+        elif mm:
+            res.fail("property", "C16: adding %r to every mu is not a pure shift of the posterior: %s" % (d, mm), dict(type="c16", game=g, shift=d))
     corr_games(res, games, "correspondence", "C16 rate numbers")
 
 
